@@ -62,6 +62,8 @@ def simulate(c) -> list:
                 if a.get("kind") != "write":
                     continue
                 b, mode = a["bucket"], a.get("mode", "assign")
+                if a["per_step"][i] < 0:
+                    continue
                 k = nel * (a.get("waves") or 1) if b == "photon" else nel
                 top = a["per_step"][i] + k - 1
                 cur = st[b]
@@ -181,6 +183,14 @@ def gen_case_once(r, force=None) -> dict:
         for g, a in acts:
             per_b.setdefault(a["bucket"], []).append(a)
         acts = [(g, per_b[a["bucket"]].pop(0)) for g, a in fixed]
+    # a float bucket that is initialised in some steps only (a negative entry: the writer does nothing)
+    partial = [b for b in ("photon", "signal") if b in buckets]
+    if n >= 2 and partial and force.get("partial", r.random() < 0.2):
+        b = r.choice(partial)
+        skip = set(r.sample(range(n), r.randrange(1, n)))
+        for _, a in acts:
+            if a["bucket"] == b:
+                a["per_step"] = [-1 if i in skip else v for i, v in enumerate(a["per_step"])]
     models = []
     k = 0
     while k < len(acts):
@@ -605,7 +615,8 @@ def run(ctx: Ctx):
         "theorems need no ordering",
         "C03_slices: image initialised in no step or in every step with one dtype (any values)",
         "C03_slices / C03_debug_nodes: every to_xarray copies the container's buffer (C03_readouts_copy, table in Model/Result.v)",
-        "buckets initialised in some steps only are outside the statement (xarray NaN-fills them): recorded, not judged",
+        "a float bucket initialised in some steps only: judged (its slices equal the snapshots where it was initialised, all-NaN "
+        "where it was not); an integer image missing at some step goes through NaN and a cast: recorded, not judged",
         "debug: values small enough that np.allclose on integers is equality (|v| < 1e5)",
     ]
     core.proof_leg(ctx, generated(ctx), PROP_FILE)
@@ -613,7 +624,8 @@ def run(ctx: Ctx):
     r = ctx.rng("cases")
     cases = fixed_cases()
     budget = ctx.budget(160, 1200)
-    aimed = [dict(buckets=["pixel"], n=3), dict(buckets=["photon", "signal"], n=2), dict(debug=True, n=3),
+    aimed = [dict(buckets=["photon", "signal", "pixel"], n=3, partial=True), dict(buckets=["photon"], n=4, partial=True, debug=True),
+             dict(buckets=["signal", "image"], n=2, partial=True), dict(buckets=["pixel"], n=3), dict(buckets=["photon", "signal"], n=2), dict(debug=True, n=3),
              dict(debug=True, nondestr=True, n=2), dict(scene=True, hier=False), dict(data=True, n=4)]
     for f in aimed:
         cases.append(gen_case(r, f))
@@ -636,6 +648,8 @@ def run(ctx: Ctx):
                 if a.get("kind") == "write":
                     ctx.dist("bucket_written", a["bucket"] + ("_3d" if a.get("waves") else ""))
                     ctx.dist("write_mode", a.get("mode", "assign") + ("/debug" if c["debug"] else ""))
+                    if any(v < 0 for v in a["per_step"]):
+                        ctx.dist("initialised_in_some_steps_only", a["bucket"] + ("_3d" if a.get("waves") else ""))
                     if a["bucket"] != "image":
                         ctx.dist("float_dtype", a["dtype"])
                 elif a.get("kind") in ("data", "scene"):
